@@ -707,9 +707,31 @@ func c08(c *Ctx) {
 			acc, isPhi := q.X.(*ssa.Phi)
 			okAcc, why := false, "the dividend is not accumulated in a loop"
 			if isPhi {
+				// the edges of the accumulator, looking through the exit phi of a bottom-tested loop
+				// (for i := range n: the value after the loop is phi(initial, sum) and the running sum is the
+				// header's own phi)
+				var edges []ssa.Value
 				for _, e := range acc.Edges {
+					if p2, ok := e.(*ssa.Phi); ok && p2 != acc {
+						edges = append(edges, p2.Edges...)
+					} else {
+						edges = append(edges, e)
+					}
+				}
+				for _, e := range edges {
 					add := asBinOp(e, token.ADD)
-					if add == nil || add.X != ssa.Value(acc) {
+					if add == nil {
+						continue
+					}
+					carried := add.X == ssa.Value(acc)
+					if hp, ok := add.X.(*ssa.Phi); ok && !carried {
+						for _, he := range hp.Edges {
+							if he == ssa.Value(add) {
+								carried = true
+							}
+						}
+					}
+					if !carried {
 						continue
 					}
 					mul := asBinOp(add.Y, token.MUL)
